@@ -125,6 +125,7 @@ func (e *Exec) assumeRequires(ct *Contract) bool {
 		return true
 	}
 	env := e.envFor(nil)
+	env.instAt = e.goalSk
 	for _, cl := range ct.clauses {
 		if cl.kind != "requires" {
 			continue
@@ -157,7 +158,25 @@ type genOpts struct {
 //   - law:  comparator clauses tagged prop
 //   - pre:  callee preconditions at call sites (always, when fn has anything to prove for prop)
 //   - safe: index/nil/slice/... (when safe is set)
+// propImports: a check may import the clauses of other properties as premises; every imported
+// clause that is actually used is re-proved inside the importing check (self-contained evidence).
+var propImports = map[string][]string{
+	"C20": {"C01", "C02"},
+	"C07": {"C01"},
+	"C16": {"C01"},
+	"C04": {"C01", "C02"},
+	"C05": {"C01"},
+}
+
+func premiseTags(prop string) []string {
+	return append([]string{prop}, propImports[prop]...)
+}
+
 func (w *World) functionVCs(fn *ssa.Function, prop string, inclBase, safe bool) []VC {
+	return w.functionVCsT(fn, prop, map[string]bool{prop: true}, inclBase, safe)
+}
+
+func (w *World) functionVCsT(fn *ssa.Function, prop string, prove map[string]bool, inclBase, safe bool) []VC {
 	ct := w.contractOf(fn)
 	key := w.fnKey(fn)
 	var vcs []VC
@@ -167,11 +186,11 @@ func (w *World) functionVCs(fn *ssa.Function, prop string, inclBase, safe bool) 
 		for _, cl := range ct.clauses {
 			switch cl.kind {
 			case "ensures":
-				if ct.hasTagProp(cl, prop) || (inclBase && len(cl.tags) == 0) {
+				if (hasAnyTag(cl, prove) && !(prove["!"+prop] && ct.hasTagProp(cl, prop))) || (inclBase && len(cl.tags) == 0) {
 					postClauses = append(postClauses, cl)
 				}
 			case "comparator":
-				if ct.hasTagProp(cl, prop) {
+				if hasAnyTag(cl, prove) && !(prove["!"+prop] && ct.hasTagProp(cl, prop)) {
 					lawClauses = append(lawClauses, cl)
 				}
 			}
@@ -218,7 +237,7 @@ func (w *World) functionVCs(fn *ssa.Function, prop string, inclBase, safe bool) 
 	}
 	// single execution: post + pre + safe
 	if len(postClauses) > 0 || safe {
-		g := newGen(w, []string{prop})
+		g := newGen(w, premiseTags(prop))
 		e := newExec(g, w, fn, "")
 		e.run(nil)
 		ok := g.unsupported == "" && e.assumeRequires(ct)
@@ -227,20 +246,22 @@ func (w *World) functionVCs(fn *ssa.Function, prop string, inclBase, safe bool) 
 		} else {
 			rets, returned := e.resultTerms()
 			env := e.envFor(rets)
-			for i, cl := range postClauses {
-				t := env.tr(cl.expr)
+			env.goalSk = e.goalSk
+			for _, cl := range postClauses {
+				env.skNext = 0
+				t := env.trGoal(cl.expr)
 				if env.err != "" {
-					vcs = append(vcs, VC{Name: fmt.Sprintf("%s.post[%s]/%s", key, prop, clauseLabel(cl, i+1)), Prop: prop, Kind: "unsupported", Fn: key, Unsupported: env.err})
+					vcs = append(vcs, VC{Name: fmt.Sprintf("%s.post[%s]/%s", key, tagLabel(cl, prove, prop), clauseLabel(cl, cl.ord)), Prop: prop, Kind: "unsupported", Fn: key, Unsupported: env.err})
 					env.err = ""
 					continue
 				}
-				vcs = append(vcs, w.mkVC(g, fmt.Sprintf("%s.post[%s]/%s", key, prop, clauseLabel(cl, i+1)), prop, "post", key, cl.src,
+				vcs = append(vcs, w.mkVC(g, fmt.Sprintf("%s.post[%s]/%s", key, tagLabel(cl, prove, prop), clauseLabel(cl, cl.ord)), prop, "post", key, cl.src,
 					[]string{"(assert " + returned + ")", "(assert (not " + t.t + "))"}, w.pos(fn.Pos()), e.replaySpec()))
 			}
 			for _, ob := range e.obls {
-				if ob.Kind == "pre" || safe {
+				if ob.Kind == "pre" || ob.Kind == "inv" || safe {
 					kind := ob.Kind
-					if kind != "pre" {
+					if kind != "pre" && kind != "inv" {
 						kind = "safe." + kind
 					}
 					vcs = append(vcs, w.mkVC(g, ob.Name, prop, kind, key, "",
@@ -265,6 +286,30 @@ func (w *World) functionVCs(fn *ssa.Function, prop string, inclBase, safe bool) 
 		vcs = append(vcs, w.lawVCs(fn, ct, cl, prop, li)...)
 	}
 	return vcs
+}
+
+func hasAnyTag(cl *Clause, tags map[string]bool) bool {
+	for _, t := range cl.tags {
+		if tags[t] {
+			return true
+		}
+	}
+	return false
+}
+
+// tagLabel: the tag under which a clause's obligation is named (the first of its tags that is being proved).
+func tagLabel(cl *Clause, prove map[string]bool, prop string) string {
+	for _, t := range cl.tags {
+		if t == prop {
+			return prop
+		}
+	}
+	for _, t := range cl.tags {
+		if prove[t] {
+			return t
+		}
+	}
+	return prop
 }
 
 func (c *Contract) hasTagProp(cl *Clause, prop string) bool {
@@ -318,7 +363,7 @@ func (w *World) lawVCs(fn *ssa.Function, ct *Contract, cl *Clause, prop string, 
 	}
 	var vcs []VC
 	build := func(kind string, nobj int, runs [][2]int, goal func(r []Term) Term) {
-		g := newGen(w, []string{prop})
+		g := newGen(w, premiseTags(prop))
 		// symbolic objects
 		objs := make([][]Term, nobj)
 		tmp := &Exec{g: g, w: w, fn: fn}
@@ -348,6 +393,7 @@ func (w *World) lawVCs(fn *ssa.Function, ct *Contract, cl *Clause, prop string, 
 			}
 		}
 		var results []Term
+		var wheres []*Exec
 		var sums []loopSummary
 		var rs ReplaySpec
 		rs.Fn = key
@@ -377,8 +423,24 @@ func (w *World) lawVCs(fn *ssa.Function, ct *Contract, cl *Clause, prop string, 
 				vcs = append(vcs, VC{Name: fmt.Sprintf("%s.law%s.%s", key, suffix, kind), Prop: prop, Kind: "unsupported", Fn: key, Unsupported: g.unsupported})
 				return
 			}
-			if cl.where != nil {
+			wheres = append(wheres, e)
+			rets, returned := e.resultTerms()
+			g.assert(returned)
+			results = append(results, rets[0])
+			rs.Runs = append(rs.Runs, []int{run[0], run[1]})
+			sums = append(sums, e.summaries...)
+		}
+		// where-clauses: assumed for every run, with their index quantifiers instantiated at all loop exit indices
+		if cl.where != nil {
+			var ats []Term
+			for _, s := range sums {
+				if !s.nested {
+					ats = append(ats, s.K, "(+ "+s.K+" 1)")
+				}
+			}
+			for _, e := range wheres {
 				env := e.envFor(nil)
+				env.instAt = ats
 				t := env.tr(cl.where)
 				if env.err != "" {
 					vcs = append(vcs, VC{Name: fmt.Sprintf("%s.law%s.%s", key, suffix, kind), Prop: prop, Kind: "unsupported", Fn: key, Unsupported: env.err})
@@ -386,11 +448,6 @@ func (w *World) lawVCs(fn *ssa.Function, ct *Contract, cl *Clause, prop string, 
 				}
 				g.assert(t.t)
 			}
-			rets, returned := e.resultTerms()
-			g.assert(returned)
-			results = append(results, rets[0])
-			rs.Runs = append(rs.Runs, []int{run[0], run[1]})
-			sums = append(sums, e.summaries...)
 		}
 		// cross-instantiate the loop summaries of the runs at each other's exit indices
 		for _, s := range sums {
@@ -398,9 +455,12 @@ func (w *World) lawVCs(fn *ssa.Function, ct *Contract, cl *Clause, prop string, 
 				if s.K == t.K || s.nested || t.nested {
 					continue
 				}
-				for _, at := range []Term{t.K} {
-					g.assert(implies(and(s.reach, "(<= "+s.init+" "+at+")", "(< "+at+" "+s.K+")"), strings.ReplaceAll(s.cont, "@J@", at)))
+				at := t.K
+				idx := at
+				if s.shift == 1 {
+					idx = "(+ " + at + " 1)"
 				}
+				g.assert(implies(and(s.reach, "(<= "+s.init+" "+at+")", "(< "+at+" "+s.K+")"), strings.ReplaceAll(s.cont, "@J@", idx)))
 			}
 		}
 		vc := w.mkVC(g, fmt.Sprintf("%s.law%s.%s", key, suffix, kind), prop, "law."+kind, key, "comparator "+cl.src,
@@ -420,8 +480,31 @@ func (w *World) lawVCs(fn *ssa.Function, ct *Contract, cl *Clause, prop string, 
 
 // lemmaVC: closed formula over spec functions and F_f symbols.
 func (w *World) lemmaVC(lm *Lemma, prop string) VC {
-	g := newGen(w, []string{prop})
+	g := newGen(w, premiseTags(prop))
 	env := &exprEnv{g: g, w: w, pkg: w.byShort[lm.pkg], vars: map[string]typedTerm{}}
+	// earlier lemmas of the same package (allowed tags, not recorded findings) are premises
+	for _, prev := range w.lemmas {
+		if prev == lm {
+			break
+		}
+		if prev.pkg != lm.pkg || !g.tagAllowed(prev.tags) || w.findingSet()[prev.pkg+".lemma."+prev.name] {
+			continue
+		}
+		used := false
+		for _, u := range lm.uses {
+			if u == prev.name {
+				used = true
+			}
+		}
+		if !used {
+			continue
+		}
+		pt := env.tr(prev.expr)
+		if env.err == "" {
+			g.assert(pt.t)
+		}
+		env.err = ""
+	}
 	t := env.tr(lm.expr)
 	name := lm.pkg + ".lemma." + lm.name
 	if env.err != "" || g.unsupported != "" {
@@ -434,6 +517,7 @@ func (w *World) lemmaVC(lm *Lemma, prop string) VC {
 func (w *World) propVCs(prop string, safe bool) []VC {
 	var vcs []VC
 	done := map[*ssa.Function]bool{}
+	done2 := map[*ssa.Function]bool{}
 	needBase := map[string]bool{}
 	for _, fn := range w.repoFunctions() {
 		ct := w.contractOf(fn)
@@ -470,12 +554,27 @@ func (w *World) propVCs(prop string, safe bool) []VC {
 		sort.Strings(keys)
 		for _, k := range keys {
 			fn := w.funcs[k]
-			if fn == nil || done[fn] {
+			if fn == nil || done2[fn] {
 				continue
 			}
-			done[fn] = true
+			done2[fn] = true
 			changed = true
-			v := w.functionVCs(fn, prop, true, false)
+			imp := map[string]bool{}
+			for _, t := range propImports[prop] {
+				imp[t] = true
+			}
+			var v []VC
+			if done[fn] {
+				// its prop-tagged (and untagged) clauses are already being proved: add the imported ones only
+				if len(imp) == 0 {
+					continue
+				}
+				imp["!"+prop] = true
+				v = w.functionVCsT(fn, prop, imp, false, false)
+			} else {
+				imp[prop] = true
+				v = w.functionVCsT(fn, prop, imp, true, false)
+			}
 			for _, x := range v {
 				for _, c := range x.Callees {
 					needBase[c] = true
